@@ -39,6 +39,18 @@ def maxCFHeadersLen : Nat := 100000
 /-- the fixed multiple of the allocation clause: a decode requests at most `allocK * MaxMessagePayload` bytes -/
 def allocK : Nat := 12
 
+/-! ### bytes charged per element when a decoder calls `make` after accepting a count
+(struct size + the 8-byte pointer kept in the message's slice; pinned against `unsafe.Sizeof`) -/
+def eszTxIn : Nat := 104        -- TxIn 96 + pointer
+def eszTxOut : Nat := 40        -- TxOut 32 + pointer
+def eszWitnessItem : Nat := 24  -- slice header
+def eszTx : Nat := 72           -- MsgTx 64 + pointer
+def eszInvVect : Nat := 44      -- InvVect 36 + pointer
+def eszHeader : Nat := 112      -- BlockHeader 104 + pointer
+def eszHash : Nat := 40         -- Hash 32 + pointer
+def eszNetAddr : Nat := 104     -- NetAddress 64 + pointer + 16-byte IP backing array (+ slack)
+def eszNetAddrV2 : Nat := 104   -- NetAddressV2 56 + pointer + address object (<= 40)
+
 /-! ### protocol version gates -/
 def MultipleAddressVersion : Nat := 209
 def NetAddressTimeVersion : Nat := 31402
@@ -90,5 +102,33 @@ def totalScript (b : TxBody) : Nat :=
 
 inductive TxEnc | base | witness
   deriving DecidableEq, Repr
+
+/-! ### the explicit domain of a transaction (what `(tx e).wf` unfolds to; `Props.tx_wf_iff`) -/
+
+def TxInOk (i : TxIn) : Prop :=
+  i.1.length = 32 ∧ i.2.1 < 2 ^ 32 ∧ i.2.2.1.length ≤ maxWitnessItemSize ∧ i.2.2.2 < 2 ^ 32
+
+def TxOutOk (o : TxOut) : Prop := o.1 < 2 ^ 64 ∧ o.2.length ≤ maxWitnessItemSize
+
+def WitnessOk (w : Witness) : Prop :=
+  w.length ≤ maxWitnessItemsPerInput ∧ ∀ x ∈ w, x.length ≤ maxWitnessItemSize
+
+def HeaderOk (h : BlockHeader) : Prop :=
+  h.1 < 2 ^ 32 ∧ h.2.1.length = 32 ∧ h.2.2.1.length = 32 ∧ h.2.2.2.1 < 2 ^ 32 ∧ h.2.2.2.2.1 < 2 ^ 32 ∧
+  h.2.2.2.2.2 < 2 ^ 32
+
+/-- field ranges, count caps, one witness stack per input, script pool, and the encoding's own
+restriction: no witness data under the base encoding; at least one input under the witness encoding
+(BIP144 cannot represent a transaction without inputs). -/
+def TxDomain (e : TxEnc) (t : Tx) : Prop :=
+  t.1 < 2 ^ 32 ∧
+  t.2.1.length ≤ maxTxInPerMessage ∧ (∀ i ∈ t.2.1, TxInOk i) ∧
+  t.2.2.1.length ≤ maxTxOutPerMessage ∧ (∀ o ∈ t.2.2.1, TxOutOk o) ∧
+  t.2.2.2.1.length = t.2.1.length ∧ (∀ w ∈ t.2.2.2.1, WitnessOk w) ∧
+  t.2.2.2.2 < 2 ^ 32 ∧
+  totalScript t.2 ≤ scriptSlabSize ∧
+  (match e with
+   | .base => hasWitness t.2 = false
+   | .witness => t.2.1 ≠ [])
 
 end BV.C08
